@@ -391,7 +391,16 @@ func VerifC15RepDiff() {
 	lo := nd.IntIn(-3, 3)
 	x, y := nd.IntIn(-9, 9), nd.IntIn(-9, 9)
 	var canon, other any
-	switch nd.Choice(8) {
+	switch nd.Choice(12) {
+	case 8: // fixed arrays and typed containers with nil elements
+		canon, other = []any{x, nil, y}, [3]any{x, nil, y}
+	case 9:
+		canon, other = []any{nil, x}, []c15RepDrop{{nil}, {x}}
+	case 10:
+		var np *int
+		canon, other = []any{nil, nil}, []*int{np, np}
+	case 11:
+		canon, other = []any{x, nil}, [2]c15RepDrop{{x}, {nil}}
 	case 5: // an ordered map with nil values is the array of its values, nils included
 		canon, other = []any{nil, x, nil, y}, yaml.MapSlice{{Key: "p", Value: nil}, {Key: "q", Value: x}, {Key: "r", Value: nil}, {Key: "s", Value: y}}
 	case 6:
@@ -505,4 +514,42 @@ func VerifC15SortMixed() {
 		nd.Assert(cin == cout, "sort-mixed-permutation")
 	}
 	nd.Reach("C15.sortmixed")
+}
+
+type c15RepDrop struct{ v any }
+
+func (d c15RepDrop) ToLiquid() any { return d.v }
+
+// VerifC15ElementReps: an array of records behaves the same whatever represents each record —
+// generic map, typed map, ordered YAML map, Drop standing for a map — under keyed sort, map and
+// keyed sort_natural; and plain sort orders the non-nil elements of an array that also holds nils.
+func VerifC15ElementReps() {
+	k1, k2, k3 := nd.IntIn(-1, 1), nd.IntIn(-1, 1), nd.IntIn(-1, 1)
+	ks := []int{k1, k2, k3}
+	rec := func(rep, i int) any {
+		switch rep {
+		case 1:
+			return map[string]int{"k": ks[i], "id": i}
+		case 2:
+			return yaml.MapSlice{{Key: "k", Value: ks[i]}, {Key: "id", Value: i}}
+		case 3:
+			return c15RepDrop{map[string]any{"k": ks[i], "id": i}}
+		}
+		return map[string]any{"k": ks[i], "id": i}
+	}
+	canon := []any{rec(0, 0), rec(0, 1), rec(0, 2)}
+	r0 := nd.Choice(4)
+	other := []any{rec(r0, 0), rec(nd.Choice(4), 1), rec((r0+1)%4, 2)}
+	f := []string{"sort: 'k' | map: 'k' | join: ','", "map: 'k' | join: ','", "sort: 'k' | map: 'id' | join: ','", "map: 'id' | sort | join: ','"}[nd.Choice(4)]
+	v1, e1 := fEval("a | "+f, map[string]any{"a": canon})
+	v2, e2 := fEval("a | "+f, map[string]any{"a": other})
+	nd.Assert(e1 == nil && e2 == nil, "element-representation-no-error")
+	if e1 == nil && e2 == nil {
+		nd.Assert(values.Equal(v1, v2), "element-representation-same-result")
+	}
+	// nils among the elements do not disturb the order of the others
+	v3, e3 := fEval("a | sort | compact | join: ','", map[string]any{"a": []any{3, nil, k1, 1, nil}})
+	v4, e4 := fEval("a | sort | join: ','", map[string]any{"a": []any{3, k1, 1}})
+	nd.Assert(e3 == nil && e4 == nil && values.Equal(v3, v4), "sort-with-nils-orders-the-rest")
+	nd.Reach("C15.elementreps")
 }
